@@ -89,8 +89,14 @@ class Harness:
         return None
 
     def _indicate(self, it, name, a, k, pc):
-        self.indications.append((pc, a[0]))
-        it.events.append((pc, "indication", a[0]))
+        v = a[0]
+        alts = v.alts if isinstance(v, Guarded) else [(TRUE, v)]
+        for c, x in alts:
+            if x is None or not isinstance(x, Obj):
+                continue
+            cc = z3.simplify(z3.And(pc, c))
+            self.indications.append((cc, x))
+            it.events.append((cc, "indication", x))
         return None
 
     def _geom(self, it, a, k, pc):
